@@ -4,6 +4,7 @@ import VyxalModel.Model.Number
 import VyxalModel.Model.Strings
 import VyxalModel.Model.Transpile
 import VyxalModel.Model.Placed
+import VyxalModel.Lemmas.TruncationAt
 import VyxalModel.Model.WFPy
 import VyxalModel.Model.DictCompress
 import VyxalModel.Model.Balance
@@ -53,6 +54,12 @@ def placedCmd (src : List Nat) : String :=
     match transpileAst (genEnv false) tree with
     | .ok py => s!"placed={p} vtok={v} bpl={b} wf={if PyAst.wfL false false py then "T" else "F"} bal={if Bal.balancedTop py then "T" else "F"}"
     | .error e => s!"placed={p} vtok={v} bpl={b} wf=ERR {showTErr e}"
+
+/-- C04: the hypothesis of `parse_append_closers` on the lexed program, and the pending closers (`scan`) -/
+def atokCmd (src : List Nat) : String :=
+  let ts := tokenise src
+  let pend := scan [] ts
+  s!"atok={if atOK (2 * ts.length + 2) ts then "T" else "F"} pend={" ".intercalate (pend.map toString)}"
 
 def dictMaxLen : Nat := Gen.dictionaryContents.foldl (fun m w => max m w.length) 0
 
@@ -339,6 +346,7 @@ def answer (cmd arg : String) : String :=
   | "escstr" => showOptCps (some (escapeString (parseCps arg)))
   | "pybody" => showOptCps (pyStringBody (parseCps arg))
   | "placed" => placedCmd (parseCps arg)
+  | "atok" => atokCmd (parseCps arg)
   | "dictfacts" => s!"{Gen.dictionaryContents.length} {Gen.compression.length} {dictMaxLen}"
   | "dictcomp" => showOptCps (some (optimalCompress Gen.compression Gen.dictionaryContents dictMaxLen (parseCps arg)))
   | "transpile" => transpileCmd false (parseCps arg)
